@@ -12,14 +12,30 @@
                                    phase: the harness's tolerance verdict `close`)
                L2 UnsupportedIsErr QParse(prog) = err =>  res = err (never panic, never ok)
                programs outside the property's text (measure, built-in CX, ill-typed statements): L1 only
-   name      : one row of the real name table; L2 NameRoundTrip for the property's kinds, L1 equality with the spec's table *)
+   name      : one row of the real name table; L2 NameRoundTrip for the property's kinds, L1 equality with the spec's table
+   arity     : GType::num_qubits of one kind; L2 ArityTable for the property's kinds (the arity its gate name is declared
+               with), L1 equality with the spec's table for the others
+   parsex    : an EXTENDED program (whole-register operands = broadcast, user gate definitions; spec/Qasm.tla QParseX),
+               rendered by the harness, read by Circuit::from_qasm or Circuit::from_file (field via)
+               L2 NoPanic          never a panic
+               L2 DenotedOrErr     res = ok  =>  the circuit is exactly the one the text denotes (QParseX: every
+                                   application of the broadcast, every statement of every inlined body, in order):
+                                   no gate dropped, none invented (an error instead is allowed: the property does
+                                   not promise that these constructs are supported)
+               L2 UnsupportedIsErr an undefined gate name anywhere in the text, or barrier / reset / U applied at top
+                                   level or through the body of an applied gate  =>  res = err
+               L1 res agrees with QParseX(prog) (accepted / rejected)
+   fromfile  : Circuit::from_file on a missing path / a directory / an empty file: L2 NoPanic; the answers are counted
+   Every parse / roundtrip event carries via = str | file: every third text is read through Circuit::from_file. *)
 EXTENDS TraceLib, Qasm
 
 VARIABLES l, c, viol, drift, stats
 vars == <<l, c, viol, drift, stats>>
 Init == l = 1 /\ c = [n |-> 0, gates |-> <<>>] /\ viol = <<>> /\ drift = <<>>
         /\ stats = [circuits |-> 0, roundtrips |-> 0, in_domain |-> 0, programs |-> 0, expected_ok |-> 0, expected_err |-> 0,
-                    beyond |-> 0, names |-> 0, nontrivial |-> 0, l1same |-> 0]
+                    beyond |-> 0, names |-> 0, nontrivial |-> 0, l1same |-> 0,
+                    via_file |-> 0, arities |-> 0, xprograms |-> 0, x_expected_ok |-> 0, x_must_err |-> 0, x_broadcast |-> 0,
+                    x_defs_applied |-> 0, x_ok |-> 0, x_gates |-> 0, fromfile_ok |-> 0, fromfile_err |-> 0]
 
 IsPlain(s) == s.s = "gate" /\ s.form \in {"plain", "plain11", "mixed"}
 \* the parsed circuit of a parse event against the circuit x the specification computes (one gate per statement)
@@ -31,6 +47,14 @@ SameCirc(e, x) ==
        /\ g.t = w.t /\ g.qs = w.qs /\ g.vars = w.vars
        /\ IF IsPlain(e.prog.stmts[i]) THEN e.close[i] ELSE g.ph = w.ph
 B(x) == IF x THEN 1 ELSE 0
+\* the parsed circuit of a parsex event against the circuit the specification computes: identical gate lists
+SameCircX(o, x) ==
+  /\ o.n = x.n /\ Len(o.gates) = Len(x.gates)
+  /\ \A i \in 1..Len(x.gates) :
+       LET g == o.gates[i]
+           w == x.gates[i] IN
+       g.t = w.t /\ g.qs = w.qs /\ g.vars = w.vars /\ g.ph = w.ph
+ViaFile(e) == B(Has(e, "via") /\ e.via = "file")
 
 Step(e) ==
   CASE e.k = "circ" ->
@@ -50,7 +74,7 @@ Step(e) ==
          IN /\ viol' = IF ok2 THEN viol ELSE Append(viol, <<l, IF ind THEN "RoundTripOK" ELSE "UndefinedIsErr", e.res>>)
             /\ drift' = IF same THEN drift ELSE Append(drift, <<l, "PrintParse", e.res>>)
             /\ stats' = [stats EXCEPT !.roundtrips = @ + 1, !.in_domain = @ + B(ind), !.nontrivial = @ + B(Len(c.gates) > 0),
-                                      !.l1same = @ + B(same)]
+                                      !.l1same = @ + B(same), !.via_file = @ + ViaFile(e)]
             /\ UNCHANGED c
     [] e.k = "parse" ->
          LET exp == QParse(e.prog)
@@ -60,7 +84,8 @@ Step(e) ==
          IN /\ viol' = IF match \/ ~inprop THEN viol ELSE Append(viol, <<l, pred, e.res>>)
             /\ drift' = IF match \/ inprop THEN drift ELSE Append(drift, <<l, "ParseBeyond", e.res>>)
             /\ stats' = [stats EXCEPT !.programs = @ + 1, !.expected_ok = @ + B(exp.res = "ok"), !.expected_err = @ + B(exp.res = "err"),
-                                      !.beyond = @ + B(~inprop), !.nontrivial = @ + B(Len(e.prog.stmts) > 0), !.l1same = @ + B(match)]
+                                      !.beyond = @ + B(~inprop), !.nontrivial = @ + B(Len(e.prog.stmts) > 0), !.l1same = @ + B(match),
+                                      !.via_file = @ + ViaFile(e)]
             /\ UNCHANGED c
     [] e.k = "name" ->
          LET ok2 == (e.kind \in QPropKinds) => (e.back = e.kind)
@@ -69,6 +94,31 @@ Step(e) ==
             /\ drift' = IF same THEN drift ELSE Append(drift, <<l, "NameTable", e.kind>>)
             /\ stats' = [stats EXCEPT !.names = @ + 1, !.l1same = @ + B(same)]
             /\ UNCHANGED c
+    [] e.k = "arity" ->
+         LET ok2 == (e.kind \in QPropKinds) => (e.nq = QArity(NameOfKind(e.kind)))
+             same == e.nq = QKindNumQubits(e.kind)
+         IN /\ viol' = IF ok2 THEN viol ELSE Append(viol, <<l, "ArityTable", e.kind>>)
+            /\ drift' = IF same THEN drift ELSE Append(drift, <<l, "ArityTable", e.kind>>)
+            /\ stats' = [stats EXCEPT !.arities = @ + 1, !.l1same = @ + B(same)]
+            /\ UNCHANGED c
+    [] e.k = "parsex" ->
+         LET exp == QParseX(e.prog)
+             must == QXMustErr(e.prog)
+             agree == IF exp.res = "err" THEN e.res = "err" ELSE e.res = "ok" /\ SameCircX(e.out, exp.circ)
+             v1 == IF e.res = "panic" THEN <<<<l, "NoPanic", e.res>>>> ELSE <<>>
+             v2 == IF e.res = "ok" /\ exp.res = "ok" /\ ~SameCircX(e.out, exp.circ) THEN <<<<l, "DenotedOrErr", e.res>>>> ELSE <<>>
+             v3 == IF must /\ e.res = "ok" THEN <<<<l, "UnsupportedIsErr", e.res>>>> ELSE <<>>
+         IN /\ viol' = viol \o v1 \o v2 \o v3
+            /\ drift' = IF agree \/ e.res = "panic" THEN drift ELSE Append(drift, <<l, "ParseX", e.res>>)
+            /\ stats' = [stats EXCEPT !.xprograms = @ + 1, !.x_expected_ok = @ + B(exp.res = "ok"), !.x_must_err = @ + B(must),
+                                      !.x_broadcast = @ + B(QXHasBroadcast(e.prog)), !.x_defs_applied = @ + B(QXAppliesDef(e.prog)),
+                                      !.x_ok = @ + B(e.res = "ok"), !.x_gates = @ + Len(e.out.gates),
+                                      !.nontrivial = @ + B(Len(e.prog.stmts) > 0), !.l1same = @ + B(agree), !.via_file = @ + ViaFile(e)]
+            /\ UNCHANGED c
+    [] e.k = "fromfile" ->
+         /\ viol' = IF e.res = "panic" THEN Append(viol, <<l, "NoPanic", e.case>>) ELSE viol
+         /\ stats' = [stats EXCEPT !.fromfile_ok = @ + B(e.res = "ok"), !.fromfile_err = @ + B(e.res = "err")]
+         /\ UNCHANGED <<c, drift>>
     [] e.k = "fromname" ->
          LET same == e.kind = KindOfName(e.name)
          IN /\ drift' = IF same THEN drift ELSE Append(drift, <<l, "NameTable", e.name>>)
